@@ -80,11 +80,14 @@ def run(db, cx):
             d = ""
             if len(var) == 1:
                 defs = f.reaching_defs(next(iter(var)), (b, i))
-                okd = len(defs) == 1 and "/" in defs[0][2].get("rhs", "") and \
+                import re as _re
+                mdiv = _re.search(r"/\s*([A-Za-z_]\w*)\s*$", defs[0][2].get("rhs", "")) if len(defs) == 1 else None
+                divisor = mdiv.group(1) if mdiv else None
+                okd = len(defs) == 1 and divisor is not None and \
                     STV + "step_length" in defs[0][2].get("calls", []) and \
-                    "speed" in defs[0][2].get("refs", [])
+                    divisor in defs[0][2].get("refs", [])
                 g = False
-                for br in f.branch_blocks(lambda c, _b: c.get("op") == ">" and c.get("lrefs") == ["speed"]
+                for br in f.branch_blocks(lambda c, _b: c.get("op") == ">" and c.get("lrefs") == [divisor]
                                           and c.get("rlit") in ("0", "0.0")):
                     if f.guarded_by_edge((b, i), br, f.cond_polarity_edge(br, True)):
                         g = True
